@@ -96,17 +96,43 @@ Fixpoint deliver_all (b : buffer) (evs : list event) : buffer * list out :=
   | Handshake _ _ :: r => deliver_all b r
   end.
 
+(** one call: [data_received(c)] or [receive(pc)] *)
+Definition sim_step (np : bool) (subs : Z -> list (list nat)) (s : state) (b : buffer) (i : input)
+  : state * list event * buffer * list out :=
+  match i with
+  | Chunk c =>
+      let (s1, evs) := step np subs s c in
+      let (b1, os) := deliver_all b evs in (s1, evs, b1, os)
+  | Receive pc =>
+      let (b1, o) := receive b pc in (s, [], b1, [o])
+  end.
+
 Fixpoint sim (np : bool) (subs : Z -> list (list nat)) (s : state) (b : buffer) (ins : list input)
   : list (state * list event * buffer * list out) :=
   match ins with
   | [] => []
-  | Chunk c :: r =>
-      let (s1, evs) := step np subs s c in
-      let (b1, os) := deliver_all b evs in
-      (s1, evs, b1, os) :: sim np subs s1 b1 r
-  | Receive pc :: r =>
-      let (b1, o) := receive b pc in
-      (s, [], b1, [o]) :: sim np subs s b1 r
+  | i :: r =>
+      let x := sim_step np subs s b i in
+      x :: sim np subs (fst (fst (fst x))) (snd (fst x)) r
+  end.
+
+(** what receives obtain in one call: futures resolved by a chunk, payload returned by receive *)
+Fixpoint got_of (i : input) (os : list out) : list (Z * list Z) :=
+  match os with
+  | [] => []
+  | Resolved pc p :: r => (pc, p) :: got_of i r
+  | Got p :: r => match i with Receive pc => (pc, p) :: got_of i r | _ => got_of i r end
+  | _ :: r => got_of i r
+  end.
+
+(** final (parser state, buffer, everything obtained by receives) of an interleaved run *)
+Fixpoint sim_final (np : bool) (subs : Z -> list (list nat)) (s : state) (b : buffer)
+         (g : list (Z * list Z)) (ins : list input) : state * buffer * list (Z * list Z) :=
+  match ins with
+  | [] => (s, b, g)
+  | i :: r =>
+      let x := sim_step np subs s b i in
+      sim_final np subs (fst (fst (fst x))) (snd (fst x)) (g ++ got_of i (snd x)) r
   end.
 
 Definition sim_mt (np : bool) (m t me : nat) := sim np (matching m t me).
@@ -448,3 +474,161 @@ Definition sim_c (np : bool) (subs : Z -> list (list nat)) (s : state) (b : buff
    end).
 
 Definition sim_c_mt (np : bool) (m t me : nat) := sim_c np (matching m t me).
+
+(** Input side: byte lists are written as hex strings ([hx "00ff"] = [0; 255]) — one token instead
+    of one numeral per byte (parsing long list literals dominates the run time otherwise). *)
+From Coq Require Import Ascii String.
+
+Definition hexval (c : ascii) : Z :=
+  let n := Z.of_nat (nat_of_ascii c) in
+  if (48 <=? n) && (n <=? 57) then n - 48
+  else if (97 <=? n) && (n <=? 102) then n - 87
+  else 0.
+
+Fixpoint hx (s : string) : list Z :=
+  match s with
+  | String a (String b r) => (16 * hexval a + hexval b) :: hx r
+  | _ => []
+  end.
+
+(* ------------------------------------------------------------------------------------- *)
+(** * End to end: parser and buffers together *)
+
+Fixpoint evs_acts (evs : list event) : list action :=
+  match evs with
+  | [] => []
+  | Deliver pc p :: r => Arr pc p :: evs_acts r
+  | Handshake _ _ :: r => evs_acts r
+  end.
+
+Fixpoint acts_of (np : bool) (subs : Z -> list (list nat)) (s : state) (ins : list input) : list action :=
+  match ins with
+  | [] => []
+  | Chunk c :: r => let x := step np subs s c in evs_acts (snd x) ++ acts_of np subs (fst x) r
+  | Receive pc :: r => Rcv pc :: acts_of np subs s r
+  end.
+
+Fixpoint chunks_of (ins : list input) : list (list Z) :=
+  match ins with [] => [] | Chunk c :: r => c :: chunks_of r | Receive _ :: r => chunks_of r end.
+
+Fixpoint rcvs_of (ins : list input) : list Z :=
+  match ins with [] => [] | Receive pc :: r => pc :: rcvs_of r | Chunk _ :: r => rcvs_of r end.
+
+Fixpoint arrs (acts : list action) : list (Z * list Z) :=
+  match acts with [] => [] | Arr pc p :: r => (pc, p) :: arrs r | Rcv _ :: r => arrs r end.
+
+Lemma deliver_all_fold : forall evs b g i,
+  (match i with Chunk _ => True | Receive _ => False end) ->
+  let (b1, os) := deliver_all b evs in
+  fold_left act_st (evs_acts evs) (b, g) = (b1, g ++ got_of i os).
+Proof.
+  induction evs as [|[pid ks|pc p] evs IH]; intros b g i Hi.
+  - simpl. rewrite app_nil_r. reflexivity.
+  - simpl. apply IH. exact Hi.
+  - cbn [deliver_all evs_acts fold_left]. unfold act_st at 2. cbn [fst snd act].
+    destruct (arrive b pc p) as [b1 o] eqn:Ea.
+    specialize (IH b1 (g ++ obtained (Arr pc p) o) i Hi).
+    destruct (deliver_all b1 evs) as [b2 os]. rewrite IH. f_equal.
+    rewrite <- app_assoc. f_equal.
+    unfold arrive in Ea. destruct (lookup pc b) as [[q|]|]; inversion Ea; subst; cbn; reflexivity.
+Qed.
+
+Lemma sim_final_acts : forall np subs ins s b g,
+  sim_final np subs s b g ins =
+    (fst (run np subs s (chunks_of ins)),
+     fst (fold_left act_st (acts_of np subs s ins) (b, g)),
+     snd (fold_left act_st (acts_of np subs s ins) (b, g))).
+Proof.
+  induction ins as [|[c|pc] ins IH]; intros s b g.
+  - reflexivity.
+  - cbn [sim_final sim_step acts_of chunks_of run].
+    destruct (step np subs s c) as [s1 evs] eqn:Es. cbn [fst snd].
+    pose proof (deliver_all_fold evs b g (Chunk c) I) as Hd.
+    destruct (deliver_all b evs) as [b1 os]. cbn [fst snd].
+    rewrite IH, fold_left_app, Hd.
+    destruct (run np subs s1 (chunks_of ins)) as [s2 e2]. reflexivity.
+  - cbn [sim_final sim_step acts_of chunks_of fold_left].
+    unfold act_st at 2 4. cbn [fst snd act].
+    destruct (receive b pc) as [b1 o] eqn:Er. cbn [fst snd]. rewrite IH.
+    replace (got_of (Receive pc) [o]) with (obtained (Rcv pc) o); [reflexivity|].
+    unfold receive in Er. destruct (lookup pc b) as [[q|]|]; inversion Er; subst; reflexivity.
+Qed.
+
+Lemma arrs_app a b : arrs (a ++ b) = arrs a ++ arrs b.
+Proof. induction a as [|[k p|k] a IH]; simpl; auto. f_equal; auto. Qed.
+
+Lemma evs_acts_app a b : evs_acts (a ++ b) = evs_acts a ++ evs_acts b.
+Proof. induction a as [|[k p|k q] a IH]; simpl; auto. f_equal; auto. Qed.
+
+Lemma arrs_acts_of : forall np subs ins s,
+  arrs (acts_of np subs s ins) = arrs (evs_acts (snd (run np subs s (chunks_of ins)))).
+Proof.
+  induction ins as [|[c|pc] ins IH]; intros s.
+  - reflexivity.
+  - cbn [acts_of chunks_of run]. destruct (step np subs s c) as [s1 e1]. cbn [fst snd].
+    rewrite arrs_app, IH. destruct (run np subs s1 (chunks_of ins)) as [s2 e2]. cbn [snd].
+    rewrite evs_acts_app, arrs_app. reflexivity.
+  - cbn [acts_of chunks_of arrs]. apply IH.
+Qed.
+
+Lemma rcvs_acts_of : forall np subs ins s, rcv_labels (acts_of np subs s ins) = rcvs_of ins.
+Proof.
+  induction ins as [|[c|pc] ins IH]; intros s.
+  - reflexivity.
+  - cbn [acts_of rcvs_of]. rewrite rcv_labels_app, IH.
+    assert (H : forall evs, rcv_labels (evs_acts evs) = []).
+    { induction evs as [|[k p|k q] evs IHe]; simpl; auto. }
+    rewrite H. reflexivity.
+  - cbn [acts_of rcvs_of rcv_labels]. f_equal. apply IH.
+Qed.
+
+Lemma arrs_deliveries msgs : arrs (evs_acts (deliveries msgs)) = msgs.
+Proof. induction msgs as [|[pc p] msgs IH]; simpl; [reflexivity|]. f_equal. exact IH. Qed.
+
+Lemma arr_labels_arrs acts : arr_labels acts = map fst (arrs acts).
+Proof. induction acts as [|[k p|k] acts IH]; simpl; auto. f_equal; auto. Qed.
+
+Lemma in_arr_arrs pc p acts : In (Arr pc p) acts <-> In (pc, p) (arrs acts).
+Proof.
+  induction acts as [|[k q|k] acts IH]; simpl; [tauto| |].
+  - rewrite IH. split; intros [H|H]; auto; left; congruence.
+  - rewrite IH. split; [intros [H|H]; [discriminate|auto]|auto].
+Qed.
+
+Lemma in_rcv_labels pc acts : In (Rcv pc) acts <-> In pc (rcv_labels acts).
+Proof. rewrite <- has_rcv_in. apply has_rcv_true. Qed.
+
+(** ** C10, end to end.  Any message list with distinct labels, any chunking of its byte stream,
+       any placement of (distinct) receive calls between the chunks: the parser ends clean, a
+       receive obtains (pc, p) iff (pc, p) was sent and receive(pc) was called; what is left in the
+       buffer is exactly the unclaimed payloads and the receives whose label was never sent. *)
+Theorem framing_end_to_end : forall np subs pid msgs ins,
+  Forall wf_msg msgs -> NoDup (map fst msgs) -> NoDup (rcvs_of ins) ->
+  List.concat (chunks_of ins) = List.concat (map encode msgs) ->
+  match sim_final np subs (Some pid, []) [] [] ins with
+  | (sf, bf, got) =>
+      sf = (Some pid, []) /\
+      (forall pc p, In (pc, p) got <-> In (pc, p) msgs /\ In pc (rcvs_of ins)) /\
+      (forall pc p, lookup pc bf = Some (Payload p) <-> In (pc, p) msgs /\ ~ In pc (rcvs_of ins)) /\
+      (forall pc, lookup pc bf = Some Waiting <-> In pc (rcvs_of ins) /\ ~ In pc (map fst msgs))
+  end.
+Proof.
+  intros np subs pid msgs ins Hwf Hnd Hr Hc.
+  rewrite sim_final_acts.
+  pose proof (chunking_irrelevant np subs pid msgs (chunks_of ins) Hwf Hc) as Hrun.
+  set (acts := acts_of np subs (Some pid, []) ins).
+  assert (Harrs : arrs acts = msgs).
+  { unfold acts. rewrite arrs_acts_of, Hrun. apply arrs_deliveries. }
+  assert (Hrcv : rcv_labels acts = rcvs_of ins) by apply rcvs_acts_of.
+  assert (Ha : NoDup (arr_labels acts)) by (rewrite arr_labels_arrs, Harrs; exact Hnd).
+  assert (Hr' : NoDup (rcv_labels acts)) by (rewrite Hrcv; exact Hr).
+  pose proof (receive_commutes acts Ha Hr') as H.
+  rewrite Hrun. cbn [fst].
+  change (fold_left act_st acts ([], [])) with (runb acts).
+  destruct (runb acts) as [bf got]. cbn [fst snd].
+  destruct H as [H1 [H2 H3]].
+  split; [reflexivity|]. split; [|split].
+  - intros pc p. rewrite H1, in_arr_arrs, Harrs, in_rcv_labels, Hrcv. reflexivity.
+  - intros pc p. rewrite H2, in_arr_arrs, Harrs, in_rcv_labels, Hrcv. reflexivity.
+  - intros pc. rewrite H3, in_rcv_labels, Hrcv, arr_labels_arrs, Harrs. reflexivity.
+Qed.
